@@ -72,6 +72,10 @@ impl Router {
             metadata.servers
         );
 
+        /* `operationId` MUST be unique among all operations of the document, but the default one is the
+           handler's name: a handler serving two routes (or namesakes from two modules) get numbered */
+        let mut used_operation_ids = std::collections::HashSet::<&'static str>::new();
+
         for (route, methods) in routes {
             crate::DEBUG!("[gen_openapi_doc] route = `{route}`");
 
@@ -119,6 +123,17 @@ impl Router {
 
                 crate::DEBUG!("[gen_openapi_doc] found");
                         
+                if let Some(id) = operation.get_operationId() {
+                    if !used_operation_ids.insert(id) {
+                        let unique_id = (2..).map(|n| format!("{id}_{n}"))
+                            .find(|numbered| !used_operation_ids.contains(numbered.as_str()))
+                            .unwrap(/* an unused number exists */);
+                        let unique_id: &'static str = unique_id.leak();
+                        used_operation_ids.insert(unique_id);
+                        operation = operation.operationId(unique_id);
+                    }
+                }
+
                 for param_name in &openapi_path_param_names {
                     operation.assign_path_param_name(param_name.to_string());
                 }
